@@ -174,6 +174,7 @@ def role_of(ents):
 def drain(model, msgs, ctx, request=None):
     """feed the recorded queue events to the model; for a request check the pop discipline"""
     pops = []
+    model.events_seen = getattr(model, "events_seen", 0) + len(_LOG)
     for ev in _LOG:
         kind, qid = ev[0], ev[1]
         ents = model.q.setdefault(qid, [])
@@ -294,6 +295,12 @@ def _sd_history(dual, seq, ops=None, maxlen=None):
             got = sd.GetDataItemWithMaxLocalR() if local else sd.GetDataItemWithMaxGlobalR()
             events = list(_LOG)
             pops = drain(model, msgs, ctx)
+            if not pops and model.events_seen == 0:
+                # the containers do not go through the public CharacteristicsQueue methods at all (another queue
+                # implementation): the recorders see nothing, so only the black-box part can be judged
+                if not any(got is i for i in model.items):
+                    msgs.append(f"{ctx}: best-interval request returned an object that is not a stored item")
+                pops = None
             if pops:
                 # a request may refill its queue only when that queue has run empty, and it hands out the last entry
                 # it takes: nothing may be queued or cleared in that queue after the returned entry was taken
@@ -316,7 +323,9 @@ def _sd_history(dual, seq, ops=None, maxlen=None):
                         held = 0
                     else:
                         held += 1
-            if not pops:
+            if pops is None:
+                pass
+            elif not pops:
                 msgs.append(f"{ctx}: best-interval request made no queue access")
             else:
                 qid, pr, it = pops[-1]
